@@ -21,7 +21,9 @@ pub mod c10;
 pub mod c12;
 pub mod c11;
 pub mod drivers;
+pub mod cosim;
 pub mod c13;
+pub mod c08;
 pub mod replay;
 
 pub use engine::chooser::{choose, deviate};
